@@ -20,6 +20,7 @@ def run(tier):
         "numbers are order-embedded integers / 3-decimal floats; regexes are the literal/anchor fragment",
         "TLC, the JSON community module and the harness renderer are trusted"]
     core.e1(res, tier, lambda mm: ("e1:" + mm["kind"]) if mm["kind"] == "spec-vs-impl" else None)
+    core.block_family(res, tier)
     n = 1500 if tier == "quick" else 12000
     core.record_and_judge(res, tier, n, ["core", "full"], classify)
     res.cov["rule"] = ("E1: every (query shape x quantifier x operator x right-hand side x document) state of MC_E1 "
